@@ -296,7 +296,8 @@ func (self *Compiler) compileMapBody(p *ir.Program, sp int, vt reflect.Type) {
 func (self *Compiler) compileMapBodyKey(p *ir.Program, vk reflect.Type) {
 	// followed as `encoding/json/emcode.go:resolveKeyName
 	if vk.Kind() == reflect.String {
-		self.compileString(p, vk)
+		// a key is always written as a quoted string, json.Number keys included
+		p.Add(ir.OP_str)
 		return
 	}
 
